@@ -1,4 +1,5 @@
 import GuppyVerif.Lemmas.C01StoreSub
+import GuppyVerif.Lemmas.C01VarIdx
 /-! # C01 — wiring discipline of `DFContainer.__getitem__` / `__setitem__` (partial)
 
 Property theorems only.  They cover the pack/unpack discipline of struct and tuple places in
@@ -188,3 +189,49 @@ example :
   exact RefRun.nil _
 
 end GuppyVerif.DFWiring
+
+/-! ## Variable scoping under partial monomorphization (model `Model/DFVarIdx.lean`) -/
+namespace GuppyVerif.DFVarIdx
+
+/-- **C01 (body variables are bound by the signature)**: inside a partially monomorphised function
+    every Guppy parameter that stays generic is lowered (`type_var_to_hugr` / `const_var_to_hugr`) to a
+    HUGR variable whose de Bruijn index is in range of the parameter list that `instantiate_partial`
+    gives the `FuncDefn`, and that list has *the same Guppy parameter* at that position (so kind and
+    bound agree) — for every parameter list and every choice of monomorphised parameters. -/
+theorem var_bound_by_signature (mono : List Bool) (idx : Nat) (h : mono[idx]? = some false) :
+    ∃ j, varToHugr (some mono) idx = .var j ∧ j < (remaining mono).length ∧
+      (remaining mono)[j]? = some idx := by
+  refine ⟨countKept (mono.take idx), by simp [varToHugr, compileVariableIdx, h], ?_, ?_⟩
+  · have := remainingFrom_get mono 0 idx h
+    have hlt := (List.getElem?_eq_some_iff.mp this).1
+    exact hlt
+  · simpa [remaining] using remainingFrom_get mono 0 idx h
+
+/-- non-vacuity, and the shape the seeded defect breaks: `pick(k: int @comptime, xs: array[int, n])`
+    has `mono = [true, false]`; `n` (Guppy index 1) must become HUGR variable 0, the only bound one -/
+example : varToHugr (some [true, false]) 1 = .var 0 ∧ remaining [true, false] = [1] ∧
+    varToHugr (some [false, true, false, true, false]) 4 = .var 2 ∧
+    remaining [false, true, false, true, false] = [0, 2, 4] := by decide
+
+/-- **C01 (distinct generic parameters stay distinct)**: two kept parameters are never lowered to the
+    same HUGR variable. -/
+theorem var_indices_injective (mono : List Bool) (i k : Nat) (hi : mono[i]? = some false)
+    (hk : mono[k]? = some false) (h : varToHugr (some mono) i = varToHugr (some mono) k) : i = k := by
+  obtain ⟨j1, e1, _, g1⟩ := var_bound_by_signature mono i hi
+  obtain ⟨j2, e2, _, g2⟩ := var_bound_by_signature mono k hk
+  rw [e1, e2] at h
+  simp only [Lowered.var.injEq] at h
+  subst h
+  rw [g1] at g2
+  exact Option.some.inj g2
+
+example : varToHugr (some [false, true, false]) 0 ≠ varToHugr (some [false, true, false]) 2 := by decide
+
+/-- **C01 (monomorphised parameters leave no variable behind)** -/
+theorem mono_param_replaced (mono : List Bool) (idx : Nat) (h : mono[idx]? = some true) :
+    varToHugr (some mono) idx = .arg := by
+  simp [varToHugr, h]
+
+example : varToHugr (some [true, false]) 0 = .arg := by decide
+
+end GuppyVerif.DFVarIdx
